@@ -435,7 +435,17 @@ func (w *dmWorld) openAt(kind int, laddr tcpip.Address, lport uint16, ri, mode, 
 		p := w.NewTCPPeer(false, rp, lport, uint32(sim.Mix(w.seed^uint64(len(w.socks)))))
 		p.PAddr, p.SAddr = ra, dst
 		w.Take()
-		p.Send(codec.FlagSYN, p.ISS, 0, 65535, nil, nil)
+		if (ri+ai+len(w.socks))%4 == 0 {
+			// the SYN and an immediate duplicate reach the listener back to back
+			p.NoWait = true
+			p.Send(codec.FlagSYN, p.ISS, 0, 65535, nil, nil)
+			p.Send(codec.FlagSYN, p.ISS, 0, 65535, nil, nil)
+			p.NoWait = false
+			w.Settle()
+			w.Probes["duplicate_syn_back_to_back"]++
+		} else {
+			p.Send(codec.FlagSYN, p.ISS, 0, 65535, nil, nil)
+		}
 		mine := p.Mine(w.Take())
 		if len(mine) == 0 || mine[0].Flags&codec.FlagSYN == 0 {
 			fl := -1
@@ -877,6 +887,10 @@ func (w *dmWorld) next() Step {
 			}
 		}
 		return st
+	}
+	if r.Chance(0.3) {
+		// long enough for every abandoned handshake to time out (63 s) and clean up after itself
+		return Step{Op: "adv", D: int64(70 * time.Second)}
 	}
 	return Step{Op: "adv", D: int64(time.Duration(r.Range(1, 500)) * time.Millisecond)}
 }
